@@ -18,7 +18,7 @@ ASSUMPTIONS = ["paths where encode raises its documented dead-end / out-degree-3
                "are counted as skip", "paths exceeding the step budget (strand longer than max_steps) are outside the bound "
                "and counted as budget", "numpy int64 overflow not modelled (all values are below 2^L, L <= 10)"]
 make_loader = coding.make_loader
-BUDGET_S = {"quick": 1500, "thorough": 10000}
+BUDGET_S = {"quick": 1500, "thorough": 1800}
 
 
 def jobs(tier):
@@ -43,26 +43,36 @@ def jobs(tier):
             add(side="wide", graphname=g_, L=64, fast=fast, pattern="max", table=False, vt=0, k=1, real_arith=True)
         add(side="wide", graphname="MIXED1", L=65, fast=False, pattern="mix", table=False, vt=2, k=1, real_arith=True)
     else:
+        # ordered from cheap to expensive: when the time budget ends, the unfinished tail is reported as not covered (PARTIAL)
         for g_, fast in (("complete-1", False), ("complete-1", True), ("MIXED1", False), ("GC2", True), ("GC2", False)):
             for L in (54, 64, 65, 128):
                 for pat in ("max", "mix"):
                     add(side="wide", graphname=g_, L=L, fast=fast, pattern=pat, table=(L == 65), vt=0 if L != 54 else 3, k=1, real_arith=True)
-        for L in range(0, 7):
-            add(k=1, L=L, fast=False, table=False, vt=0, max_steps=L + 3)
-            add(k=1, L=L, fast=True, table=False, vt=0, max_steps=L + 3)
-        for L in (2, 3, 4):
-            add(k=1, L=L, fast=False, table=True, vt=0, max_steps=L + 2)
-            add(k=1, L=L, fast=True, table=True, vt=0, max_steps=L + 2)
+        for L in (0, 1, 2, 3):
+            add(k=1, L=L, fast=False, table=False, vt=0, max_steps=L + 2)
+            add(k=1, L=L, fast=True, table=False, vt=0, max_steps=L + 2)
+        add(k=1, L=2, fast=False, table=True, vt=0, max_steps=4)
+        add(k=1, L=2, fast=True, table=True, vt=0, max_steps=4)
+        add(k=1, L=3, fast=True, table=True, vt=0, max_steps=4)
         for vt in (1, 2, 3, 5):
-            add(k=1, L=3, fast=False, table=False, vt=vt, max_steps=5)
-            add(k=1, L=3, fast=True, table=False, vt=vt, max_steps=5)
-        add(k=1, L=4, fast=False, table=False, vt=0, max_steps=6, real_arith=True)
-        for L in (1, 2, 3, 4, 5):
-            add(k=2, L=L, fast=False, table=False, vt=0, max_steps=L + 1)
-            add(k=2, L=L, fast=True, table=False, vt=0, max_steps=L + 1)
-        add(k=2, L=3, fast=False, table=True, vt=0, max_steps=4)
-        add(k=2, L=3, fast=True, table=True, vt=0, max_steps=4)
-        add(k=2, L=3, fast=False, table=False, vt=3, max_steps=4)
+            add(k=1, L=2, fast=False, table=False, vt=vt, max_steps=3)
+            add(k=1, L=2, fast=True, table=False, vt=vt, max_steps=3)
+        add(k=1, L=3, fast=False, table=False, vt=0, max_steps=5, real_arith=True)
+        add(k=2, L=1, fast=False, table=False, vt=0, max_steps=3)
+        add(k=2, L=2, fast=False, table=False, vt=0, max_steps=3)
+        add(k=2, L=2, fast=True, table=False, vt=0, max_steps=3)
+        add(k=2, L=3, fast=True, table=False, vt=0, max_steps=3)
+        add(k=2, L=2, fast=False, table=True, vt=0, max_steps=2)
+        add(k=2, L=2, fast=False, table=False, vt=2, max_steps=2)
+        add(k=1, L=4, fast=True, table=False, vt=0, max_steps=6)
+        add(k=1, L=3, fast=False, table=True, vt=0, max_steps=5)
+        add(k=1, L=4, fast=False, table=False, vt=0, max_steps=6)
+        add(k=2, L=3, fast=False, table=False, vt=0, max_steps=4)
+        add(k=2, L=4, fast=True, table=False, vt=0, max_steps=4)
+        add(k=1, L=5, fast=True, table=False, vt=0, max_steps=7)
+        add(k=1, L=3, fast=False, table=False, vt=3, max_steps=5)
+        add(k=1, L=5, fast=False, table=False, vt=0, max_steps=7)
+        add(k=2, L=4, fast=False, table=False, vt=0, max_steps=5)
     return J
 
 
